@@ -45,7 +45,7 @@ func init() {
 
 func packingCases(tier string, seed int64) []eng.Case {
 	r := eng.NewRand("c04-packing-cases", seed)
-	n := 44
+	n := 72
 	if tier == "thorough" {
 		n = 500
 	}
